@@ -518,11 +518,20 @@ impl<'a> VdafVisitor for MisuseRun<'a> {
                         }
                     }
                 }
-                let count = match k % 5 {
+                // counts that are wrong by one, by a factor, and by a multiple of 256 (a share
+                // counter narrower than usize must not wrap back onto the right count)
+                let count = match k % 10 {
                     0 => 0,
                     1 => n - 1,
                     2 => n + 1,
                     3 => 2 * n,
+                    4 => 255,
+                    5 => 256,
+                    6 => 256 + n,
+                    7 => 512 + n,
+                    // (a 16-bit wrap only where the shares are small: 65 538 copies of them)
+                    8 if vs.first().and_then(|v| v.get_encoded().ok()).map(|b| b.len() <= 64).unwrap_or(false) => 65536 + n,
+                    8 => 768 + n,
                     _ => 1,
                 };
                 if count != n {
@@ -698,18 +707,19 @@ fn poplar_ops(bits: usize, seed: u64, op: &PopOp, obs: &mut Obs) {
                             }
                         }
                         if vs.len() == 2 {
-                            let list = match k % 4 {
+                            let list = match k % 5 {
                                 0 => vec![],
                                 1 => vec![vs[0].clone()],
                                 2 => vec![vs[0].clone(), vs[1].clone(), vs[0].clone()],
+                                4 => (0..258).map(|i| vs[i % 2].clone()).collect(),
                                 _ => {
                                     // mixed kinds: inner with leaf
                                     let leaf = prio::vdaf::poplar1::Poplar1FieldVec::Leaf(vec![Field255::from_u128(1); 3]);
                                     vec![vs[0].clone(), leaf]
                                 }
                             };
-                            if bits > 1 || k % 4 != 3 {
-                                must_err!(obs, "poplar-shares-to-message-bad-list", format!("Poplar1 verifier_shares_to_message with a malformed share list (variant {})", k % 4), vdaf.verifier_shares_to_message(b"ctx", &ap, list));
+                            if bits > 1 || k % 5 != 3 {
+                                must_err!(obs, "poplar-shares-to-message-bad-list", format!("Poplar1 verifier_shares_to_message with a malformed share list (variant {})", k % 5), vdaf.verifier_shares_to_message(b"ctx", &ap, list));
                             }
                         }
                     }
@@ -867,7 +877,8 @@ fn prio2_ops(len: usize, seed: u64, op: u8, obs: &mut Obs) {
                     }
                 }
                 if vs.len() == 2 {
-                    for list in [vec![], vec![vs[0].clone()], vec![vs[0].clone(), vs[1].clone(), vs[1].clone()]] {
+                    let wrapped: Vec<_> = (0..258).map(|i| vs[i % 2].clone()).collect();
+                    for list in [vec![], vec![vs[0].clone()], vec![vs[0].clone(), vs[1].clone(), vs[1].clone()], wrapped] {
                         must_err!(obs, "prio2-shares-to-message-wrong-count", format!("Prio2 verifier_shares_to_message with {} shares", list.len()), vdaf.verifier_shares_to_message(b"", &(), list.clone()));
                     }
                 }
@@ -1095,6 +1106,11 @@ impl Check for C16 {
             Case::P3Misuse { cfg: h(4, 2), seed: 3, m: P3Misuse::BadHelperShare },
             Case::P3Ctor { cfg: h(4, usize::MAX) },
             Case::P3Ctor { cfg: h(4, usize::MAX / 2 + 1) },
+            // repo eedc1df: 256 + n verifier shares wrapped the u8 share counter back onto n
+            Case::P3Misuse { cfg: h(4, 2), seed: 3, m: P3Misuse::ShareCount(5) },
+            Case::P3Misuse { cfg: h(4, 2), seed: 3, m: P3Misuse::ShareCount(6) },
+            Case::P3Misuse { cfg: VdafCfg { inst: Inst::Count { f: FieldKind::F64 }, xof: XofKind::Turbo, n_agg: 3, n_proofs: 1, alg_id: 1 }, seed: 5, m: P3Misuse::ShareCount(6) },
+            Case::P3Misuse { cfg: VdafCfg { inst: Inst::Count { f: FieldKind::F64 }, xof: XofKind::Turbo, n_agg: 2, n_proofs: 1, alg_id: 1 }, seed: 5, m: P3Misuse::ShareCount(8) },
         ]
     }
     fn run(&self, case: &Case) -> Outcome {
